@@ -23,6 +23,10 @@ func main() {
 		if strings.Contains(s.Name, "p=3") || strings.Contains(s.Name, "vvvv") {
 			sc.Bound, sc.ThoroughBound = 1, 2
 		}
+		if strings.Contains(s.Name, "many-inputs") {
+			// 17 inputs: the point is the number, not the interleaving
+			sc.Bound, sc.ThoroughBound, sc.SwitchBound = 0, 1, 1
+		}
 		scs = append(scs, sc)
 	}
 	mcx.Main("C08", scs, []string{"the scenario bodies are shared with C10/C11/C12/C14; see those checks for their bounds"})
